@@ -183,7 +183,7 @@ class SVRPContext(EnvContext):
         super(SVRPContext, self).__init__(embed_dim=embed_dim, step_context_dim=embed_dim)
 
     def forward(self, embeddings, td):
-        cur_node_embedding = self._cur_node_embedding(embeddings, td).squeeze()
+        cur_node_embedding = self._cur_node_embedding(embeddings, td)
         return self.project_context(cur_node_embedding)
 
 
@@ -245,7 +245,7 @@ class PDPContext(EnvContext):
         super(PDPContext, self).__init__(embed_dim, embed_dim)
 
     def forward(self, embeddings, td):
-        cur_node_embedding = self._cur_node_embedding(embeddings, td).squeeze()
+        cur_node_embedding = self._cur_node_embedding(embeddings, td)
         return self.project_context(cur_node_embedding)
 
 
@@ -268,7 +268,7 @@ class MTSPContext(EnvContext):
 
     def _cur_node_embedding(self, embeddings, td):
         cur_node_embedding = gather_by_index(embeddings, td["current_node"])
-        return cur_node_embedding.squeeze()
+        return cur_node_embedding
 
     def _state_embedding(self, embeddings, td):
         dynamic_feats = torch.stack(
@@ -317,7 +317,7 @@ class MDCPDPContext(EnvContext):
         super(MDCPDPContext, self).__init__(embed_dim, embed_dim)
 
     def forward(self, embeddings, td):
-        cur_node_embedding = self._cur_node_embedding(embeddings, td).squeeze()
+        cur_node_embedding = self._cur_node_embedding(embeddings, td)
         return self.project_context(cur_node_embedding)
 
 
